@@ -142,7 +142,7 @@ def validate_file(ctx, module, cfg_text, path, timeout=900, extra_env=None):
     env = {"TRACE_FILE": path, "JAVA_TOOL_OPTIONS": "-Xss64m -Xmx4g"}
     env.update(extra_env or {})
     rc, out = ctx.tlc(module, cfg_text, env=env, workers=1, timeout=timeout,
-                      tag="%s-%s" % (module, os.path.basename(path).replace(".", "_")))
+                      tag="%s-%s-%08x" % (module, os.path.basename(path).replace(".", "_"), hash(path) & 0xffffffff))
     mm, summ = [], None
     for line in out.splitlines():
         m = RE_MISMATCH.match(line)
